@@ -110,7 +110,7 @@ BIG = 100000
 
 def run(tier, seed):
     chk = Check(PROP, tier, seed)
-    chk.rule = ("every history of length 2 and (quick: a seeded sample of) length 3, thorough also a sample of length 4, over the symbolic requests (eval, again, call, callsrc, gc, limit) on the 30 sources of the pool "
+    chk.rule = ("every history of length 2 and (quick: a seeded sample of) length 3, thorough also a sample of length 4 (over the sub-pool LEN4_SOURCES), over the symbolic requests (eval, again, call, callsrc, gc, limit) on the 30 sources of the pool "
                 "sharing an external variable and an imported file; distinct = history; non-trivial = the history contains a "
                 "failing request or a limit change before its last request")
     chk.assumptions = ["the source pool is fixed in checks/c11.py (SOURCES, LIB, FILES)",
